@@ -1044,13 +1044,17 @@ func split(str, sep string) (Vector, error) {
 }
 
 func rename_keys(data, alternative HashMap) (HashMap, error) {
+	// first the untouched keys, then the renamed ones (as in Clojure): the result must not
+	// depend on the iteration order when a key is renamed onto an untouched key
 	output := map[string]MalType{}
 	for k, v := range data.Val {
-		newKey, ok := alternative.Val[k]
-		if ok {
-			output[newKey.(string)] = v
-		} else {
+		if _, ok := alternative.Val[k]; !ok {
 			output[k] = v
+		}
+	}
+	for k, v := range data.Val {
+		if newKey, ok := alternative.Val[k]; ok {
+			output[newKey.(string)] = v
 		}
 	}
 	return HashMap{
